@@ -132,9 +132,39 @@ def modname(version):
     return "v16" if version == "1.6" else "v201"
 
 
+def fit(version, v):
+    """every dict (at any depth) that has the shape of one of the version's data types -- its keys are fields of the
+    class and every field without a default is among them -- becomes an object of that class (the smallest such
+    class).  This is how applications use the OCPP 1.6 data types, whose payload classes annotate Dict / List."""
+    dts = importlib.import_module("ocpp.%s.datatypes" % modname(version))
+    if isinstance(v, list):
+        return [fit(version, x) for x in v]
+    if not isinstance(v, dict):
+        return v
+    inner = {k: fit(version, x) for k, x in v.items()}
+    cands = []
+    for name in sorted(vars(dts)):
+        c = getattr(dts, name)
+        if not (isinstance(c, type) and dataclasses.is_dataclass(c) and c.__module__ == dts.__name__) or not inner:
+            continue
+        fs = dataclasses.fields(c)
+        names = {f.name for f in fs}
+        req = {f.name for f in fs if f.default is dataclasses.MISSING and f.default_factory is dataclasses.MISSING}
+        if set(inner) <= names and req <= set(inner):
+            cands.append((len(names), name, c))
+    if cands:
+        try:
+            return min(cands)[2](**inner)
+        except Exception:  # noqa: BLE001 - a class that checks its values: leave the dict
+            return inner
+    return inner
+
+
 def _make(modname_, version, action, snake, as_dataclasses):
     mod = importlib.import_module("ocpp.%s.%s" % (modname(version), modname_))
     cls = getattr(mod, action)
+    if as_dataclasses == "fit":
+        return cls(**{k: fit(version, x) for k, x in copy.deepcopy(snake).items()})
     if as_dataclasses:
         MIXED["on"] = as_dataclasses == "mixed"
         MIXED["inner"] = as_dataclasses == "inner"
